@@ -137,15 +137,28 @@ def scorer_case(ctx, r):
             break
     if not cuts:
         return
+    if r.get("one_outer") and k == 4:
+        s0, e0 = (0, n) if rng.random() < 0.5 else (cuts[0][0], cuts[0][3])
+        same_outer = [c for c in ((s0, a, b, e0) for a in range(s0 + 1, e0) for b in range(a + 1, e0))
+                      if SM.cut_is_valid(desc, c, n, p)]
+        if same_outer:
+            idx = rng.choice(len(same_outer), size=min(20, len(same_outer)), replace=False)
+            cuts = [same_outer[int(i)] for i in idx]
     cuts = np.array(cuts, dtype=np.int64)
     X2 = transform_data(X, T)
     spec2 = permute_spec(spec, T["perm"]) if kind == "permute" else spec
     label = f"{short(spec)} X[{n}x{p}] T={T}"
     sub = f"scorer-{kind}"
     try:
-        v1 = build(spec).fit(X).evaluate(cuts)
+        sc1 = build(spec).fit(X)
+        v1 = sc1.evaluate(cuts)
         cuts2 = (n - cuts[:, ::-1]) if kind == "reverse" else cuts
-        v2 = build(spec2).fit(X2).evaluate(cuts2)
+        if r.get("reuse") and spec2 == spec:
+            # the SAME object re-fitted on T(X): nothing of the first fit may survive
+            ctx.stat("scorer_pairs_same_object")
+            v2 = sc1.fit(X2).evaluate(cuts2)
+        else:
+            v2 = build(spec2).fit(X2).evaluate(cuts2)
     except RuntimeError:
         ctx.stat("documented_runtimeerror")
         return
@@ -261,10 +274,10 @@ def safe_width(spec, X, X2, scale_ref):
     return w
 
 
-def run_det(spec, X):
-    det = build(spec).fit(X)
+def run_det(spec, X, det=None):
+    det = (build(spec) if det is None else det).fit(X)
     y = det.predict(X)
-    out = {"y": y, "thr": getattr(det, "threshold_", None)}
+    out = {"y": y, "thr": getattr(det, "threshold_", None), "det": det}
     name = spec["cls"]
     if name == "MovingWindow":
         out["scores"] = np.asarray(det.transform_scores(X), dtype=float).ravel()
@@ -323,7 +336,9 @@ def detector_case(ctx, r):
     I.drain()
     try:
         with time_limit(120):
-            o1, o2 = run_det(spec, X), run_det(spec, X2)
+            o1 = run_det(spec, X)
+            # half of the pairs run T(X) through the SAME detector object (refit, then predict)
+            o2 = run_det(spec, X2, det=o1["det"] if r.get("reuse") else None)
     except CaseTimeout:
         ctx.stat("case_timeouts")
         return
@@ -423,7 +438,8 @@ def make_det_recipe(rng, tier):
     n = int(rng.integers(max(nmin, 8), max(nmin, 8) + hi))
     dk = ["mean_changes", "weak_changes", "collective", "spikes", "var_changes", "noise"][int(rng.integers(6))]
     X, _ = gen_data(rng, n, p, dk)
-    return {"kind": "detector", "det": spec, "X": X, "T": random_T(rng, kind, p)}
+    return {"kind": "detector", "det": spec, "X": X, "T": random_T(rng, kind, p),
+            "reuse": bool(rng.random() < 0.5)}
 
 
 def make_pelt_reversal_recipe(rng, tier):
@@ -451,7 +467,8 @@ def make_scorer_recipe(rng, tier):
     X, _ = gen_data(rng, n, p, ["noise", "mean_changes", "var_changes", "heavy", "ramp"][int(rng.integers(5))])
     kind = ["permute", "shift", "scale", "reverse"][int(rng.integers(4))]
     return {"kind": "scorer", "spec": spec, "X": X, "T": random_T(rng, kind, p),
-            "sub_seed": int(rng.integers(2 ** 31))}
+            "sub_seed": int(rng.integers(2 ** 31)), "reuse": bool(rng.random() < 0.5),
+            "one_outer": bool(rng.random() < 0.3)}
 
 
 def run(ctx):
